@@ -57,7 +57,7 @@ type c20Leader struct {
 	calls  []c20Call
 	lastU  string
 	lastP  string
-	dbOK   bool
+	dbErr  string // "" = the call succeeds; else the error text the leader's store answers with
 	creds  *auth.CredentialsStore
 	sawReq map[string]string // last request seen per call, for the unchanged-request check
 
@@ -102,14 +102,14 @@ func (l *c20Leader) rec(call, req string) error {
 		wait = l.delay
 		l.inflight.Add(1)
 	}
-	ok := l.dbOK
+	dbErr := l.dbErr
 	l.mu.Unlock()
 	if wait > 0 {
 		time.Sleep(wait)
 		l.inflight.Done()
 	}
-	if !ok {
-		return errors.New("leader boom")
+	if dbErr != "" {
+		return errors.New(dbErr)
 	}
 	return nil
 }
@@ -392,7 +392,8 @@ type c20Input struct {
 	Local    string     `json:"local"` // ok notleader notleader-wrapped err
 	Addr     string     `json:"addr"`  // known empty err
 	File     []c20Entry `json:"file"`  // the leader's credentials
-	DBOK     bool       `json:"db_ok"`
+	LeaderErr string    `json:"leader_err"` // "" = the leader executes; else the error text its store answers with
+	Retries  int        `json:"retries"`
 	APIKnown bool       `json:"api_known"`
 	Redirect bool       `json:"redirect"`
 	Present  bool       `json:"present"`
@@ -430,6 +431,8 @@ var c20Reqs = map[string]c20Req{
 type c20Obs struct {
 	status                  int
 	results, index, servedB string // "nobody" "follower" "leader"
+	body                    string // "BEmpty" "BResults" "BRemoteError" "BOther"
+	bodyText                string
 	location                string
 	localCalls, addrCalls   int
 	remote                  []c20Call
@@ -456,7 +459,7 @@ func c20Exchange(r *c20Rig, in c20Input) (c20Obs, error) {
 	}
 	l, f := r.leader, r.follower
 	l.mu.Lock()
-	l.creds, l.dbOK, l.calls, l.lastU, l.lastP = cs, in.DBOK, nil, "<never asked>", "<never asked>"
+	l.creds, l.dbErr, l.calls, l.lastU, l.lastP = cs, in.LeaderErr, nil, "<never asked>", "<never asked>"
 	l.sawReq = map[string]string{}
 	l.slow, l.idCalls = map[int]bool{}, map[int]int{}
 	l.mu.Unlock()
@@ -468,6 +471,9 @@ func c20Exchange(r *c20Rig, in c20Input) (c20Obs, error) {
 	target := rq.target
 	if in.Redirect {
 		target += "&redirect"
+	}
+	if in.Retries > 0 {
+		target += fmt.Sprintf("&retries=%d", in.Retries)
 	}
 	conn, err := net.DialTimeout("tcp", r.svc.Addr().String(), 5*time.Second)
 	if err != nil {
@@ -525,6 +531,20 @@ func c20Exchange(r *c20Rig, in c20Input) (c20Obs, error) {
 		o.index = "follower"
 	case has(`"raft_index"`):
 		o.index = "other"
+	}
+	o.bodyText = bs
+	if len(o.bodyText) > 200 {
+		o.bodyText = o.bodyText[:200]
+	}
+	switch {
+	case len(body) == 0:
+		o.body = "BEmpty"
+	case o.results != "nobody":
+		o.body = "BResults"
+	case in.LeaderErr != "" && has(in.LeaderErr):
+		o.body = "BRemoteError"
+	default:
+		o.body = "BOther"
 	}
 	l.mu.Lock()
 	o.remote = append([]c20Call{}, l.calls...)
@@ -586,17 +606,18 @@ func c20Once(r *c20Rig, in c20Input) (VCase, bool) {
 	local := map[string]string{"ok": "LOk", "notleader": "LNotLeader", "notleader-wrapped": "LNotLeader", "err": "LErr"}[in.Local]
 	addr := map[string]string{"known": "AKnown", "empty": "AEmpty", "err": "AErr"}[in.Addr]
 	bad := strings.HasPrefix(o.servedB, "other") || o.index == "other"
-	coq := fmt.Sprintf("COne {| c_kind := K%s; c_local := %s; c_addr := %s; c_leader_file := Some %s; c_db_ok := %s; c_api_known := %s; c_redirect := %s; c_user := %s; c_pass := %s; "+
-		"c_obs := {| h_status := %s; h_results := %s; h_index := %s; h_served_by := %s |}; c_local_calls := %s; c_addr_calls := %s; c_remote := %s |}",
-		in.Kind, local, addr, coqList(ents), coqBool(in.DBOK), coqBool(in.APIKnown), coqBool(in.Redirect), coqStr(user), coqStr(pass),
-		coqN(uint64(o.status)), c20CoqServed(o.results), c20CoqServed(o.index), c20CoqServed(o.servedB), coqNat(o.localCalls), coqNat(o.addrCalls), coqList(rem))
+	coq := fmt.Sprintf("COne {| c_kind := K%s; c_local := %s; c_addr := %s; c_leader_file := Some %s; c_db := %s; c_api_known := %s; c_redirect := %s; c_user := %s; c_pass := %s; "+
+		"c_obs := {| h_body := %s; h_status := %s; h_results := %s; h_index := %s; h_served_by := %s |}; c_local_calls := %s; c_addr_calls := %s; c_remote := %s |}",
+		in.Kind, local, addr, coqList(ents), map[string]string{"": "DOk", "unauthorized": "DErrUnauthorizedText"}[in.LeaderErr]+map[bool]string{true: "DErr"}[in.LeaderErr != "" && in.LeaderErr != "unauthorized"],
+		coqBool(in.APIKnown), coqBool(in.Redirect), coqStr(user), coqStr(pass),
+		o.body, coqN(uint64(o.status)), c20CoqServed(o.results), c20CoqServed(o.index), c20CoqServed(o.servedB), coqNat(o.localCalls), coqNat(o.addrCalls), coqList(rem))
 	if bad {
 		coq = strings.Replace(coq, "h_status := ", "h_status := 999%N + ", 1) // unattributable header/index: force a mismatch
 	}
 	refused := in.Local == "notleader" || in.Local == "notleader-wrapped"
 	c := VCase{Input: in, Coq: coq, Key: key, Nontrivial: refused, Tags: []string{"kind=" + in.Kind, "local=" + in.Local}}
 	c20Oracle(&c, in, o, user, pass)
-	if !in.DBOK {
+	if in.LeaderErr != "" {
 		// A failed backup stream makes the leader close the connection, and cluster.Client.Backup hands
 		// that dead connection back to its pool; the next forwarded backup/remove/stepdown (no retry on
 		// those paths) would fail once with a 500.  That is a robustness matter outside this property;
@@ -645,7 +666,7 @@ func c20RunSeqOnce(r *c20Rig, steps []c20SeqStep) (c20SeqObs, error) {
 	cs.Load(strings.NewReader(`[{"username":"u1","password":"pw1","perms":["all"]},{"username":"u2","password":"pw2","perms":["all"]}]`))
 	l, f := r.leader, r.follower
 	l.mu.Lock()
-	l.creds, l.dbOK, l.calls = cs, true, nil
+	l.creds, l.dbErr, l.calls = cs, "", nil
 	l.sawReq, l.slow, l.idCalls, l.delay = map[string]string{}, map[int]bool{}, map[int]int{}, c20SeqDelay
 	for _, st := range steps {
 		if st.Slow {
@@ -863,6 +884,16 @@ func c20Oracle(c *VCase, in c20Input, o c20Obs, user, pass string) {
 		}
 	}
 	refused := in.Local == "notleader" || in.Local == "notleader-wrapped"
+	// the handler rule: a redirect only when one was asked for, and never "nothing"
+	if !in.Redirect && o.status == 301 {
+		fail("redirect-not-requested", "301 although the request did not ask for a redirect")
+	}
+	if !in.Redirect && o.status/100 == 2 && o.body == "BEmpty" {
+		executedSomewhere := (len(o.remote) == 1 && in.LeaderErr == "") || in.Local == "ok"
+		if !((in.Kind == "Remove" || in.Kind == "Stepdown") && executedSomewhere) {
+			fail("empty-200", "the request was neither redirected nor executed nor answered with an error: status 200, empty body")
+		}
+	}
 	if o.localCalls > 1 {
 		fail("local-retried", "the local store operation ran more than once")
 	}
@@ -927,10 +958,17 @@ func c20Oracle(c *VCase, in c20Input, o c20Obs, user, pass string) {
 	if want := c20Reqs[in.Kind].expectReq; want != "" && o.leaderReq != want {
 		fail("request-changed", fmt.Sprintf("the leader received %q, the client sent %q", o.leaderReq, want))
 	}
-	if !in.DBOK {
-		c.Tags = append(c.Tags, "forward:leader-error")
+	if in.LeaderErr != "" {
+		c.Tags = append(c.Tags, "forward:leader-error", "leader-error="+in.LeaderErr)
 		if o.results != "nobody" {
-			fail("results-despite-error", "results although the leader failed")
+			fail("results-despite-error", "results although the forwarded-to node answered with an error")
+		}
+		// transparency for errors: the remote node's error reaches the client as an error
+		isErr := o.status >= 400 || strings.Contains(o.bodyText, `"error"`)
+		if !isErr {
+			fail("remote-error-hidden", fmt.Sprintf("the forwarded-to node answered %q, the client got status %d body %q", in.LeaderErr, o.status, o.bodyText))
+		} else if in.Kind != "Backup" && in.LeaderErr != "unauthorized" && !strings.Contains(o.bodyText, in.LeaderErr) {
+			fail("remote-error-text-lost", fmt.Sprintf("the forwarded-to node answered %q, the client got status %d body %q", in.LeaderErr, o.status, o.bodyText))
 		}
 		return
 	}
@@ -985,7 +1023,8 @@ func TestVerif_C20(t *testing.T) {
 				for _, addr := range []string{"known", "empty", "err"} {
 					for fi, file := range files {
 						for _, p := range press {
-							for _, dbok := range []bool{true, false} {
+							for _, lerr := range []string{"", "leader boom"} {
+								dbok := lerr == ""
 								for _, api := range []bool{true, false} {
 									// dimensions that cannot matter are sampled, not enumerated
 									if local != "notleader" && (fi > 1 || !dbok || !api && !redirect) && rng.Intn(6) != 0 {
@@ -1000,10 +1039,34 @@ func TestVerif_C20(t *testing.T) {
 									if addr != "known" && (fi > 0 || !dbok) && rng.Intn(5) != 0 {
 										continue
 									}
-									c20Run(w, r, c20Input{Kind: k, Local: local, Addr: addr, File: file, DBOK: dbok, APIKnown: api,
+									c20Run(w, r, c20Input{Kind: k, Local: local, Addr: addr, File: file, LeaderErr: lerr, APIKnown: api,
 										Redirect: redirect, Present: p.present, User: p.user, Pass: p.pass})
 								}
 							}
+						}
+					}
+				}
+			}
+		}
+	}
+	// the forwarded-to node answers with each error its store can answer a forwarded request with — it has
+	// just lost leadership ("not leader"), knows no leader, refuses a stale read, is not ready, fails, or
+	// says "unauthorized" itself — for every kind, with and without redirect, with retries
+	for _, k := range kinds {
+		for _, lerr := range []string{"not leader", "leader not found", "stale read", "store not ready", "leader boom", "unauthorized"} {
+			for _, redirect := range []bool{false, true} {
+				for _, retries := range []int{0, 1, 3} {
+					for fi, file := range files[:2] {
+						for _, p := range press {
+							if (redirect || fi == 1 || retries == 3) && rng.Intn(3) != 0 {
+								continue
+							}
+							local := "notleader"
+							if rng.Intn(4) == 0 {
+								local = "notleader-wrapped"
+							}
+							c20Run(w, r, c20Input{Kind: k, Local: local, Addr: "known", File: file, LeaderErr: lerr, APIKnown: rng.Intn(5) != 0,
+								Redirect: redirect, Retries: retries, Present: p.present, User: p.user, Pass: p.pass})
 						}
 					}
 				}
@@ -1079,7 +1142,8 @@ func TestVerif_C20(t *testing.T) {
 		}
 		p := []pres{{false, "", ""}, {true, "u1", "pw1"}, {true, "u1", "bad"}, {true, "u2", "pw2"}, {true, "zz", "pw1"}}[rng.Intn(5)]
 		c20Run(w, r, c20Input{Kind: kinds[rng.Intn(len(kinds))], Local: []string{"notleader", "notleader", "notleader-wrapped", "ok", "err"}[rng.Intn(5)],
-			Addr: []string{"known", "known", "known", "empty", "err"}[rng.Intn(5)], File: file, DBOK: rng.Intn(5) != 0, APIKnown: rng.Intn(4) != 0,
-			Redirect: rng.Intn(3) == 0, Present: p.present, User: p.user, Pass: p.pass})
+			Addr: []string{"known", "known", "known", "empty", "err"}[rng.Intn(5)], File: file,
+			LeaderErr: []string{"", "", "", "", "leader boom", "not leader", "leader not found", "stale read", "unauthorized"}[rng.Intn(9)], APIKnown: rng.Intn(4) != 0,
+			Redirect: rng.Intn(3) == 0, Retries: rng.Intn(3), Present: p.present, User: p.user, Pass: p.pass})
 	}
 }
